@@ -283,7 +283,7 @@ def run_window(ctx: Ctx) -> RuleResult:
     # TextSlice normalisation
     ts = repo.cls('lark.utils:TextSlice')
     from ..exprs import in_bool_context
-    for m in ts.methods.values():
+    for m in ts.swept_methods():
         for n in m.body_nodes():
             if isinstance(n, ast.Attribute) and n.attr in ('start', 'end') and isinstance(n.value, ast.Name) and n.value.id == m.self_name() \
                     and isinstance(n.ctx, ast.Load) and in_bool_context(n):
